@@ -37,7 +37,7 @@ for sd in sorted(glob.glob(f"{BASE}/C*/_seed/C*_*")):
     p = subprocess.run(["/venv/bin/python", os.path.join(sd, "demo.py")], cwd=wt, env=env, capture_output=True, text=True)
     r["demo_patched"] = p.returncode
     r["checks"] = {}
-    for chk in RELATED[pid]:
+    for chk in ([pid] if os.environ.get("ONLYOWN") else RELATED[pid]):
         e = dict(os.environ, JASM_REPO=wt, VERIF_TIER="quick")
         o = subprocess.run(["/verif/check", chk], cwd="/verif", env=e, capture_output=True, text=True)
         keys = sorted(set(re.findall(r"^  key=(\S+)", o.stdout, re.M)))
